@@ -3,7 +3,7 @@
 //! (i.e. from the scheduler's recorded draws). Bookkeeping uses plain std atomics (no
 //! scheduling points of their own).
 
-use super::{violation, SimRawMutex, ThreadScenDef};
+use super::{violation, violation_multi, SimRawMutex, ThreadScenDef};
 use crate::clock::ClockRef;
 use crate::core::{cfg_get, Cfg};
 use crate::rng::Rng;
@@ -396,6 +396,18 @@ impl Order {
     fn stamp(&self) -> u64 {
         self.seq.fetch_add(1, SeqCst)
     }
+    /// C11 under threads: a send whose first poll was invoked after close() had returned must fail
+    fn check_close(&self, close_ret: u64, led: &Led) {
+        if close_ret == u64::MAX {
+            return;
+        }
+        let l = led.lock().unwrap();
+        for (m, inv, _) in self.sends.lock().unwrap().iter() {
+            if *inv > close_ret && l.sent_ok[*m] {
+                violation("C11", "send-after-close-succeeded", format!("close() returned at {} but the send of message #{} that started at {} reported success", close_ret, m, inv));
+            }
+        }
+    }
     fn check(&self) {
         let sends = self.sends.lock().unwrap();
         let recvs = self.recvs.lock().unwrap();
@@ -484,7 +496,8 @@ fn ledger_final(led: &Led) {
             violation("C08", "received-twice", format!("message {}/{} was received {} times", p, s, l.received[id]));
         }
         if l.sent_ok[id] && l.received[id] == 0 {
-            violation("C08", "accepted-value-lost", format!("send of message {}/{} reported success but no consumer received it although a consumer drained the channel to the end", p, s));
+            // C08: an accepted value is delivered; C11: receivers get every value accepted before the close
+            violation_multi(&[("C08", "accepted-value-lost"), ("C11", "accepted-value-not-delivered")], format!("send of message {}/{} reported success but no consumer received it although a consumer drained the channel to the end (None)", p, s));
         }
     }
 }
@@ -534,6 +547,19 @@ fn t_chan(cfg: &Cfg) {
             if live.fetch_sub(1, SeqCst) == 1 {
                 chan.close();
             }
+        }));
+    }
+    // sometimes a thread closes the channel while sends are in flight (C11: a send that starts
+    // after close() returned must fail; an accepted value is still delivered)
+    let close_ret = Arc::new(AtomicU64::new(u64::MAX));
+    if cfg_get(cfg, "closer", 0) != 0 {
+        let (chan, order, close_ret) = (chan.clone(), order.clone(), close_ret.clone());
+        hs.push(thread::spawn(move || {
+            for _ in 0..draw(4) {
+                thread::yield_now();
+            }
+            chan.close();
+            close_ret.store(order.stamp(), SeqCst);
         }));
     }
     for c in 0..nc {
@@ -586,6 +612,7 @@ fn t_chan(cfg: &Cfg) {
     drop(chan);
     ledger_final(&led);
     order.check();
+    order.check_close(close_ret.load(SeqCst), &led);
 }
 
 fn cfg_chan(rng: &mut Rng) -> Cfg {
@@ -595,6 +622,7 @@ fn cfg_chan(rng: &mut Rng) -> Cfg {
     c.insert("consumers".into(), rng.range(1, 2));
     c.insert("items".into(), rng.range(1, 3));
     c.insert("cap".into(), rng.range(0, 2));
+    c.insert("closer".into(), rng.pct(40) as i64);
     c
 }
 
@@ -612,7 +640,20 @@ fn t_chan_shared(cfg: &Cfg) {
     let producers_done = Arc::new(AtomicUsize::new(0));
     let bound = Arc::new(CapBound::default());
     let order = Arc::new(Order::default());
+    let has_closer = cfg_get(cfg, "closer", 0) != 0;
+    let close_ret = Arc::new(AtomicU64::new(u64::MAX));
     let mut hs = Vec::new();
+    if has_closer {
+        let (rx, order, close_ret) = (rx.clone(), order.clone(), close_ret.clone());
+        hs.push(thread::spawn(move || {
+            for _ in 0..draw(4) {
+                thread::yield_now();
+            }
+            rx.close();
+            close_ret.store(order.stamp(), SeqCst);
+            drop(rx);
+        }));
+    }
     for p in 0..np {
         let (tx, led, done, bound, order) = (tx.clone(), led.clone(), producers_done.clone(), bound.clone(), order.clone());
         hs.push(thread::spawn(move || {
@@ -632,8 +673,13 @@ fn t_chan_shared(cfg: &Cfg) {
                         bound.send_ok(cap);
                         led.lock().unwrap().sent_ok[id] = true
                     }
-                    // this thread holds a sender and the main thread holds a receiver
-                    Err(_) => violation("C11", "closed-while-handles-alive", format!("producer {}: send failed although a sender handle and a receiver handle are alive", p)),
+                    // this thread holds a sender and the main thread holds a receiver: without an
+                    // explicit close the channel must be open
+                    Err(_) => {
+                        if !has_closer {
+                            violation("C11", "closed-while-handles-alive", format!("producer {}: send failed although a sender handle and a receiver handle are alive", p))
+                        }
+                    }
                 }
             }
             done.fetch_add(1, SeqCst);
@@ -696,6 +742,7 @@ fn t_chan_shared(cfg: &Cfg) {
     drop(obs);
     ledger_final(&led);
     order.check();
+    order.check_close(close_ret.load(SeqCst), &led);
 }
 
 // ================================================================ T-event (linearizability against the event model)
